@@ -2788,6 +2788,45 @@ free_wellknown_response(coap_session_t *session COAP_UNUSED, void *app_ptr) {
   coap_delete_string(app_ptr);
 }
 
+static int
+wellknown_hexval(uint8_t c) {
+  if (c >= '0' && c <= '9')
+    return c - '0';
+  if (c >= 'A' && c <= 'F')
+    return c - 'A' + 10;
+  if (c >= 'a' && c <= 'f')
+    return c - 'a' + 10;
+  return -1;
+}
+
+/*
+ * coap_get_query() hands out the Uri-Query options as text with %XX escapes.
+ * The filter of RFC 6690 is compared with the option's bytes: undo the escapes.
+ */
+static coap_string_t *
+wellknown_unescape_query(const coap_string_t *query) {
+  coap_string_t *filter = coap_new_string(query->length);
+  size_t i, n = 0;
+
+  if (!filter)
+    return NULL;
+  for (i = 0; i < query->length; i++) {
+    int hi, lo;
+
+    if (query->s[i] == '%' && query->length - i > 2 &&
+        (hi = wellknown_hexval(query->s[i+1])) >= 0 &&
+        (lo = wellknown_hexval(query->s[i+2])) >= 0) {
+      filter->s[n++] = (uint8_t)(hi << 4 | lo);
+      i += 2;
+    } else {
+      filter->s[n++] = query->s[i];
+    }
+  }
+  filter->s[n] = '\0';
+  filter->length = n;
+  return filter;
+}
+
 /*
  * Caution: As this handler is in libcoap space, it is called with
  * context locked.
@@ -2803,12 +2842,19 @@ hnd_get_wellknown_lkd(coap_resource_t *resource,
   coap_print_status_t result = 0;
   size_t wkc_len = 0;
   uint8_t buf[4];
+  coap_string_t *filter = NULL;
+
+  if (query) {
+    filter = wellknown_unescape_query(query);
+    if (!filter)
+      goto error;
+  }
 
   /*
    * Quick hack to determine the size of the resource descriptions for
    * .well-known/core.
    */
-  result = coap_print_wellknown_lkd(session->context, buf, &wkc_len, UINT_MAX, query);
+  result = coap_print_wellknown_lkd(session->context, buf, &wkc_len, UINT_MAX, filter);
   if (result & COAP_PRINT_STATUS_ERROR) {
     coap_log_warn("cannot determine length of /.well-known/core\n");
     goto error;
@@ -2820,7 +2866,7 @@ hnd_get_wellknown_lkd(coap_resource_t *resource,
       goto error;
 
     len = wkc_len;
-    result = coap_print_wellknown_lkd(session->context, data_string->s, &len, 0, query);
+    result = coap_print_wellknown_lkd(session->context, data_string->s, &len, 0, filter);
     if ((result & COAP_PRINT_STATUS_ERROR) != 0) {
       coap_log_debug("coap_print_wellknown failed\n");
       goto error;
@@ -2864,11 +2910,13 @@ hnd_get_wellknown_lkd(coap_resource_t *resource,
     }
   }
   response->code = COAP_RESPONSE_CODE(205);
+  coap_delete_string(filter);
   return;
 
 error:
   free_wellknown_response(session, data_string);
 error_released:
+  coap_delete_string(filter);
   if (response->code == 0) {
     /* set error code 5.03 and remove all options and data from response */
     response->code = COAP_RESPONSE_CODE(503);
